@@ -442,6 +442,7 @@ type ev struct {
 type recorder struct {
 	evs     []ev
 	hookMap map[string]int // model hook -> built-in id (mode A)
+	table   string         // Statement.Table of the executed operation (effects are filed under it)
 }
 
 // cur is the recorder of the pipeline execution in progress (children are single-threaded).
@@ -452,7 +453,7 @@ func hook(name string) {
 		return
 	}
 	if id, ok := cur.hookMap[name]; ok {
-		cur.evs = append(cur.evs, ev{name: id, handler: -1, table: "c17_mains"})
+		cur.evs = append(cur.evs, ev{name: id, handler: -1, table: cur.table})
 	}
 }
 
@@ -521,7 +522,7 @@ func driverHook(pl int) recdrv.Hook {
 		}
 		for _, f := range effs {
 			if f.kind == kind && (kind != "sql" || strings.HasPrefix(e.Query, f.pref)) {
-				cur.evs = append(cur.evs, ev{name: f.id, handler: -1, table: "c17_mains"})
+				cur.evs = append(cur.evs, ev{name: f.id, handler: -1, table: cur.table})
 				break
 			}
 		}
@@ -675,7 +676,7 @@ func runSeq(pl int, seq []step, modeB bool) outcome {
 			rowIntact = false
 		}
 	}
-	rec := &recorder{}
+	rec := &recorder{table: p.table}
 	if !modeB {
 		rec.hookMap = hookMaps[pl]
 		h.Rec.SetHook(driverHook(pl))
@@ -708,7 +709,34 @@ func check(p *pipeline, m map[int]*nameState, trace []ev, modeA, touched bool, s
 	add := func(class, f string, a ...interface{}) {
 		out = append(out, problem{class, fmt.Sprintf(f, a...)})
 	}
+	// mode A: built-ins whose effects cannot be attributed
+	hidden := map[int]bool{}
+	if modeA {
+		for id := range p.invisible {
+			hidden[id] = true
+		}
+		// driver begin/commit are attributable to this pipeline's transaction built-ins
+		// only while the operation runs inside the transaction opened by the pristine
+		// gorm:begin_transaction (otherwise nested association writes open their own)
+		if len(p.builtins) > 3 && !(m[0].live && m[0].handler == -1 && !m[0].weak) {
+			hidden[0] = true
+			hidden[len(p.builtins)-1] = true
+		}
+		kept := trace[:0:0]
+		for _, e := range trace {
+			if e.handler == -1 && e.name < userBase && hidden[e.name] {
+				continue
+			}
+			kept = append(kept, e)
+		}
+		trace = kept
+	}
+	visible := func(id int) bool {
+		// is the firing of id observable in this mode?
+		return !modeA || id >= userBase || m[id].handler != -1 || !hidden[id]
+	}
 	pos := map[int][]int{}
+	stale := map[int]bool{}
 	for i, e := range trace {
 		ns := m[e.name]
 		switch {
@@ -717,6 +745,7 @@ func check(p *pipeline, m map[int]*nameState, trace []ev, modeA, touched bool, s
 			continue
 		case ns.handler != e.handler:
 			add("stale-handler", "%s fired with the handler of step %d, the handler registered last is that of step %d", p.nameOf(e.name), e.handler, ns.handler)
+			stale[e.name] = true
 			continue
 		}
 		pos[e.name] = append(pos[e.name], i)
@@ -726,13 +755,6 @@ func check(p *pipeline, m map[int]*nameState, trace []ev, modeA, touched bool, s
 		ids = append(ids, id)
 	}
 	sort.Ints(ids)
-	visible := func(id int) bool {
-		// is the firing of id observable in this mode?
-		if !modeA || id >= userBase {
-			return true
-		}
-		return m[id].handler != -1 || !p.invisible[id]
-	}
 	for _, id := range ids {
 		ns := m[id]
 		if !ns.live {
@@ -744,7 +766,7 @@ func check(p *pipeline, m map[int]*nameState, trace []ev, modeA, touched bool, s
 			add("not-once:repeated", "%s fired %d times in one pipeline execution", p.nameOf(id), n)
 			continue
 		}
-		if ns.weak || !visible(id) {
+		if ns.weak || !visible(id) || stale[id] {
 			continue
 		}
 		if modeA && id < userBase && ns.handler == -1 && touched {
@@ -761,14 +783,75 @@ func check(p *pipeline, m map[int]*nameState, trace []ev, modeA, touched bool, s
 		}
 		return pos[id][0], true
 	}
-	// Before/After constraints of the registration that created each live callback
+	// ordering requirements: Before/After constraints and the built-in order
+	reqs, skipped := requirements(p, m)
+	st.skippedWeak += skipped
+	var ord []problem
+	for _, r := range reqs {
+		x, ok1 := at(r.first)
+		y, ok2 := at(r.second)
+		if !ok1 || !ok2 {
+			continue
+		}
+		switch r.class {
+		case "builtin-order":
+			st.builtinPairs++
+		case "side:star":
+			st.star++
+		default:
+			st.constraints++
+		}
+		if x > y {
+			ord = append(ord, problem{r.class, r.text})
+		}
+	}
+	if len(ord) > 0 {
+		// was there an order satisfying everything that was requested? If not, the
+		// statement demands an error return; name the class after what is contradictory.
+		over := ""
+		if !satisfiable(reqs, false) {
+			over = "contradiction-accepted:named"
+		} else if !satisfiable(reqs, true) {
+			over = "contradiction-accepted:star"
+		}
+		for _, pr := range ord {
+			if over != "" {
+				pr = problem{over, "the requested constraints cannot all hold, yet no call returned an error: " + pr.text}
+			}
+			out = append(out, pr)
+		}
+	}
+	return out
+}
+
+// req is one ordering requirement of the statement: first must fire before second.
+type req struct {
+	first, second int
+	class, text   string
+}
+
+// requirements derives from the model every ordering the statement demands of a pipeline
+// in which no call returned an error (skipped = constraints naming a callback whose
+// existence the statement does not define).
+func requirements(p *pipeline, m map[int]*nameState) (out []req, skipped int) {
+	ids := make([]int, 0, len(m))
+	for id := range m {
+		ids = append(ids, id)
+	}
+	sort.Ints(ids)
+	lastID := -1
+	for id := range p.builtins {
+		if ns := m[id]; !ns.live || ns.weak {
+			continue
+		}
+		if lastID >= 0 {
+			out = append(out, req{lastID, id, "builtin-order", fmt.Sprintf("built-in %s fired before built-in %s", p.nameOf(id), p.nameOf(lastID))})
+		}
+		lastID = id
+	}
 	for _, id := range ids {
 		ns := m[id]
 		if !ns.live || ns.weak || id < userBase {
-			continue
-		}
-		x, ok := at(id)
-		if !ok {
 			continue
 		}
 		for side, t := range []int{ns.bef, ns.aft} {
@@ -778,6 +861,13 @@ func check(p *pipeline, m map[int]*nameState, trace []ev, modeA, touched bool, s
 			word, class := "before", "side:before"
 			if side == 1 {
 				word, class = "after", "side:after"
+			}
+			mk := func(other int, cl, text string) {
+				if side == 0 {
+					out = append(out, req{id, other, cl, text})
+				} else {
+					out = append(out, req{other, id, cl, text})
+				}
 			}
 			if t == idStar {
 				// weak reading of "*": every built-in and every callback registered
@@ -790,14 +880,7 @@ func check(p *pipeline, m map[int]*nameState, trace []ev, modeA, touched bool, s
 					if y >= userBase && (ys.bef != none || ys.aft != none) {
 						continue
 					}
-					py, ok := at(y)
-					if !ok {
-						continue
-					}
-					st.star++
-					if (side == 0 && x > py) || (side == 1 && x < py) {
-						add("side:star", "%s was registered %s \"*\" but fired on the other side of %s", p.nameOf(id), word, p.nameOf(y))
-					}
+					mk(y, "side:star", fmt.Sprintf("%s was registered %s \"*\" but fired on the other side of %s", p.nameOf(id), word, p.nameOf(y)))
 				}
 				continue
 			}
@@ -806,39 +889,49 @@ func check(p *pipeline, m map[int]*nameState, trace []ev, modeA, touched bool, s
 				continue
 			}
 			if ts.weak {
-				st.skippedWeak++
+				skipped++
 				continue
 			}
-			pt, ok := at(t)
-			if !ok {
-				continue
-			}
-			st.constraints++
-			if (side == 0 && x > pt) || (side == 1 && x < pt) {
-				add(class, "%s was registered %s %s but fired on the other side of it", p.nameOf(id), word, p.nameOf(t))
+			mk(t, class, fmt.Sprintf("%s was registered %s %s but fired on the other side of it", p.nameOf(id), word, p.nameOf(t)))
+		}
+	}
+	return
+}
+
+// satisfiable reports whether some order meets all requirements (withStar: including the
+// "*" ones).
+func satisfiable(reqs []req, withStar bool) bool {
+	succ := map[int][]int{}
+	indeg := map[int]int{}
+	for _, r := range reqs {
+		if r.class == "side:star" && !withStar {
+			continue
+		}
+		succ[r.first] = append(succ[r.first], r.second)
+		indeg[r.second]++
+		if _, ok := indeg[r.first]; !ok {
+			indeg[r.first] = 0
+		}
+	}
+	var q []int
+	for n, d := range indeg {
+		if d == 0 {
+			q = append(q, n)
+		}
+	}
+	done := 0
+	for len(q) > 0 {
+		n := q[0]
+		q = q[1:]
+		done++
+		for _, s := range succ[n] {
+			indeg[s]--
+			if indeg[s] == 0 {
+				q = append(q, s)
 			}
 		}
 	}
-	// built-ins in their original relative order
-	last, lastID := -1, -1
-	for id := range p.builtins {
-		ns := m[id]
-		if !ns.live || ns.weak {
-			continue
-		}
-		x, ok := at(id)
-		if !ok {
-			continue
-		}
-		if lastID >= 0 {
-			st.builtinPairs++
-			if x < last {
-				add("builtin-order", "built-in %s fired before built-in %s", p.nameOf(id), p.nameOf(lastID))
-			}
-		}
-		last, lastID = x, id
-	}
-	return out
+	return done == len(indeg)
 }
 
 func groupByTable(evs []ev) map[string][]ev {
@@ -913,6 +1006,7 @@ func run(c *core.Ctx) {
 			byClass[pr.class] = append(byClass[pr.class], pr.text)
 		}
 		for _, cl := range classes {
+			c.Inc("viol_" + mode + "_" + cl)
 			d := map[string]interface{}{"pipeline": p.name, "sequence": desc, "origin": origin, "observation_mode": mode,
 				"every_call_returned": "nil", "problems": byClass[cl], "fired": traceDesc(p, trace)}
 			for k, v := range extra {
